@@ -34,7 +34,7 @@ tvars == <<vars, ti, xi, conform, exp, found, drifts, okx, hits>>
 Props == {"C01", "C02", "C03", "C04", "C05", "C06", "C08", "C09", "C10", "C11", "C12", "C13", "C16", "C17"}
 
 TInit ==
-  /\ sid = 0 /\ hw = <<>> /\ hr = <<>> /\ th = <<>> /\ kf = <<>> /\ val = <<>>
+  /\ sid = 0 /\ hw = <<>> /\ hr = <<>> /\ th = <<>> /\ kf = <<>> /\ val = <<>> /\ pflag = <<>>
   /\ mon = [viol |-> {}] /\ hist = <<>> /\ last = <<>>
   /\ ti = 1 /\ xi = 0 /\ conform = FALSE /\ exp = <<>> /\ found = {} /\ drifts = {} /\ okx = 0
   /\ hits = [p \in Props |-> [ev |-> 0, ex |-> 0, cur |-> FALSE]]
@@ -47,9 +47,10 @@ ResetTo(s) ==
   /\ th' = InitTh(d)
   /\ kf' = [t \in Threads(d) |-> FALSE]
   /\ val' = [l \in 1..d.nl |-> 0]
+  /\ pflag' = [c \in 1..d.nc |-> FALSE]
   /\ mon' = MonInit(s)
 
-Model == <<sid, hw, hr, th, kf, val>>
+Model == <<sid, hw, hr, th, kf, val, pflag>>
 
 Drift == /\ conform' = FALSE
          /\ drifts' = drifts \cup {[x |-> xi, ln |-> ti]}
@@ -88,6 +89,8 @@ TNext ==
                ELSE Drift
           ELSE IF ev.e = "end"
           THEN IF AllDone THEN UNCHANGED <<Model, conform, exp, drifts>> ELSE Drift
+          ELSE IF ev.e = "deadlock"    \* the scheduler found nobody runnable: the model must agree
+          THEN IF ModelStuck THEN UNCHANGED <<Model, conform, exp, drifts>> ELSE Drift
           ELSE IF "t" \in DOMAIN ev /\ ev.t \in Threads(d) /\ StepEnabled(d, ev.t)
           THEN LET ns == StepOf(d, ev.t) IN
                IF ns.S.evs # <<>> /\ Head(ns.S.evs) = ev
@@ -103,7 +106,7 @@ TSpec == TInit /\ [][TNext]_tvars
 \* results are printed from the final state (a POSTCONDITION cannot read variables)
 Report ==
   ti = Len(Rec) + 1 =>
-    /\ \A v \in found : PrintT(<<"VIOL", v.p, v.s, v.x, v.ln>>)
+    /\ \A v \in found : PrintT("VIOL " \o ToJson(v))
     /\ \A v \in drifts : PrintT(<<"DRIFT", v.x, v.ln>>)
     /\ \A p \in Props : PrintT(<<"HITS", p, hits[p].ev, hits[p].ex>>)
     /\ PrintT(<<"STATS", Len(Rec), xi, okx>>)
